@@ -94,6 +94,7 @@ func main() {
 	tier := drv.Tier(*tierF)
 	r := seq.New("C14", tier, "fault_enumeration")
 	defer r.CrashGuard()
+	defer r.Watch()()
 	r.Rule = "one evaluation = one history: a destination shape (1-3 destinations of kinds plain/LevelWriter/FilteredLevelWriter, or a single direct writer), a vector of event levels, and one complete assignment of {ok,error,short write} to every (destination,event); all assignments are enumerated; distinct = distinct (shape, levels, per-destination call log, ErrorHandler log); non-trivial = at least one injected fault"
 	r.Assumptions = []string{"destinations are synchronous fakes; an error outcome returns (0, err), a short write returns (len-1, nil)", "events: 4 levels {debug, info, error, nolevel}, up to 3 (quick) / 4 (thorough) events per history"}
 
